@@ -105,7 +105,7 @@ def directed():
         out.append(case(pol, "tasks", 0, [A], [], [T("g1", 0, 3, [(A, 1)]), T("g2", 0, 3, [(A, 1)]), T("g3", 0, 3, [(A, 1)])], tag="ts_touching"))
         # only the last slot of the horizon is free / usable
         out.append(case(pol, "tasks", 0, [A], [], [T("g1", 0, 6, [(A, 6)]), T("g2", 0, 9, [(A, 1)])], disc=3, plan_ahead=6, tag="ts_last_slot"))
-        out.append(case(pol, "tasks", 1, [A], [O(1, A, 4)], [T("g1", 0, 9, [(A, 2)])], disc=2, plan_ahead=5, tag="ts_last_slot_occ"))
+        out.append(case(pol, "tasks", 0, [A], [O(1, A, 6)], [T("g1", 0, 9, [(A, 1)])], disc=3, plan_ahead=6, tag="ts_last_slot_occ"))
         out.append(case(pol, "tasks", 0, [[2, 1]], [O(1, A, 2)], [T("g1", 0, 4, [([2, 0], 2), (AB, 4)]), T("g2", 0, 4, [(A, 2)])], tag="ts_capacity_full"))
         out.append(case(pol, "tasks", 2, [A, B], [], [T("g1", 0, 8, [(A, 3)]), T("g2", 1, 8, [(A, 3), (B, 5)]), T("g3", 2, 6, [(B, 1)])], disc=2, tag="ts_disc2"))
     out.append(case("tsg", "graphs", 0, [A], [], [T("g1", 0, 9, [(A, 2), (A, 1)]), T("g1", -1, 5, [(A, 2)], parents=[1])], tag="tsg_chain_slowest"))
@@ -434,7 +434,7 @@ def tlc_record(rec, rid, flags=(), kind=None):
         for t in inst["tasks"]
     ]
     k = kind or ("opt" if pol == "ilp" else ("ext" if "rewardOnly" in flags else "max"))
-    return {"id": rid, "kind": k, "mode": rec["mode"], "now": now, "caps": inst["caps"], "occ": occ, "tasks": tasks, "conv": conv, "ans": rec.get("ans") or [{"placed": False, "w": 0, "s": 0, "start": 0} for _ in tasks]}
+    return {"id": rid, "kind": k, "dump": False, "mode": rec["mode"], "now": now, "caps": inst["caps"], "occ": occ, "tasks": tasks, "conv": conv, "ans": rec.get("ans") or [{"placed": False, "w": 0, "s": 0, "start": 0} for _ in tasks]}
 
 
 @contextlib.contextmanager
@@ -539,80 +539,108 @@ def _plan_text(rec, plan):
     return "; ".join(out)
 
 
-def fix_check(rec, plan):
-    """Solve the instance again with the real planner, then ask the planner's own
-    (captured) Gurobi model about `plan`: fix the placement and start variables and
-    re-optimise.  Returns a dict for the violation detail."""
-    import gurobipy as gp
-    from gurobipy import GRB
+class ModelProbe:
+    """Ask the planner's own (captured) Gurobi model about a plan: fix the placement
+    and start variables of a copy, re-optimise, restore."""
 
-    if rec["policy"] == "tsc":
-        again = realize(rec)
-        return {"resolved_same_answer": again.get("ans") == rec["ans"], "note": "CPLEX model not captured"}
+    def __init__(self, rec, model, sids, copy=True):
+        self.rec, self.inst = rec, rec["inst"]
+        self.f = model.copy() if copy else model
+        self.f.Params.OutputFlag = 0
+        self.f.Params.MIPGap = 0
+        self.f.Params.Threads = 2
+        self.place = {}  # task index -> {(w, s[, start]): var}
+        self.start = {}
+        self.note = None
+        byname = {v.VarName: v for v in self.f.getVars()}
+        for ti, t in enumerate(self.inst["tasks"]):
+            name = f"t{ti+1}@{t['graph']}"
+            self.place[ti] = {}
+            if rec["policy"] == "ilp":
+                if len({x["rt"] for x in t["strats"]}) < len(t["strats"]):
+                    self.note = "two strategies with equal runtimes: ILP variable names are ambiguous, model not asked"
+                for wi in range(len(self.inst["caps"])):
+                    for si, x in enumerate(t["strats"]):
+                        v = byname.get(f"{name}_placed_on_w{wi+1}_with_batch_size_1_runtime_{x['rt']}")
+                        if v is not None:
+                            self.place[ti][(wi + 1, si + 1)] = v
+                if f"{name}_start" in byname:
+                    self.start[ti] = byname[f"{name}_start"]
+            else:
+                pat = re.compile(re.escape(name) + r"_placed_at_Worker_(\d+)_on_Time_(\d+)_with_strategy_(.*)$")
+                for vn, v in byname.items():
+                    mm = pat.match(vn)
+                    if mm and mm.group(3) in sids[ti]:
+                        self.place[ti][(int(mm.group(1)), sids[ti].index(mm.group(3)) + 1, int(mm.group(2)))] = v
+        self.saved = {v: (v.LB, v.UB) for d in self.place.values() for v in d.values()}
+        self.saved.update({v: (v.LB, v.UB) for v in self.start.values()})
+
+    def ask(self, plan, iis=False):
+        """-> ("feasible", objective) | ("infeasible", iis names) | ("novar", None) | ("skipped", why)"""
+        from gurobipy import GRB
+
+        if self.note:
+            return "skipped", self.note
+        for v, (lb, ub) in self.saved.items():
+            v.LB, v.UB = lb, ub
+        for ti, p in enumerate(plan):
+            key = (p["w"], p["s"]) if self.rec["policy"] == "ilp" else (p["w"], p["s"], p["start"])
+            if p["placed"] and key not in self.place[ti]:
+                return "novar", None
+            for k, v in self.place[ti].items():
+                v.LB = v.UB = 1 if (p["placed"] and k == key) else 0
+            if p["placed"] and ti in self.start:
+                if not (self.saved[self.start[ti]][0] <= p["start"] <= self.saved[self.start[ti]][1]):
+                    return "infeasible", ["bounds of the start variable"]
+                self.start[ti].LB = self.start[ti].UB = p["start"]
+        self.f.optimize()
+        if self.f.Status in (GRB.INFEASIBLE, GRB.INF_OR_UNBD):
+            names = []
+            if iis:
+                try:
+                    self.f.computeIIS()
+                    names = [c.ConstrName for c in self.f.getConstrs() if c.IISConstr][:10]
+                    names += [q.QCName for q in self.f.getQConstrs() if q.IISQConstr][:6]
+                    names += [g.GenConstrName for g in self.f.getGenConstrs() if g.IISGenConstr][:10]
+                except Exception:  # noqa
+                    pass
+            return "infeasible", names
+        if self.f.SolCount:
+            return "feasible", round(self.f.ObjVal, 4)
+        return "skipped", f"solver status {self.f.Status}"
+
+
+def solve_captured(rec):
+    """Solve the case again with the real planner and keep its Gurobi model."""
     with capture_models() as cap:
         again = realize(rec)
         models = list(cap)
+    return again, (models[-1] if models else None)
+
+
+def fix_check(rec, plan):
+    """Reproduce a violation: solve the instance again, then ask the planner's own
+    model about TLC's witness.  Returns a dict for the violation detail."""
+    if rec["policy"] == "tsc":
+        again = realize(rec)
+        return {"resolved_same_answer": again.get("ans") == rec["ans"], "note": "CPLEX model not captured"}
+    again, m = solve_captured(rec)
     out = {"resolved_same_answer": again.get("ans") == rec["ans"]}
-    if not models:
-        return dict(out, note="no model was optimised")
-    m = models[-1]
+    if m is None:
+        return dict(out, note="no model was optimised (nothing offered)")
     out["model_status"] = int(m.Status)
     out["model_objective"] = round(m.ObjVal, 4) if m.SolCount else None
-    inst = rec["inst"]
-    f = m.copy()
-    f.Params.OutputFlag = 0
-    f.Params.MIPGap = 0
-    byname = {}
-    for v in f.getVars():
-        byname.setdefault(v.VarName, []).append(v)
-    for ti, (t, p) in enumerate(zip(inst["tasks"], plan)):
-        name = f"t{ti+1}@{t['graph']}"
-        if rec["policy"] == "ilp":
-            for wi in range(len(inst["caps"])):
-                for si, s in enumerate(t["strats"]):
-                    vs = byname.get(f"{name}_placed_on_w{wi+1}_with_batch_size_1_runtime_{s['rt']}", [])
-                    same_rt = [k for k, s2 in enumerate(t["strats"]) if s2["rt"] == s["rt"]]
-                    if not vs:
-                        if p["placed"] and p["w"] == wi + 1 and p["s"] == si + 1:
-                            return dict(out, witness_in_model="no variable: the (worker, strategy) pair is not offered by the model")
-                        continue
-                    if len(same_rt) > 1:
-                        return dict(out, note="two strategies with equal runtimes: variable names ambiguous, fix-check skipped")
-                    val = 1 if (p["placed"] and p["w"] == wi + 1 and p["s"] == si + 1) else 0
-                    vs[0].LB = vs[0].UB = val
-            if p["placed"]:
-                sv = byname.get(f"{name}_start")
-                if sv:
-                    sv[0].LB = sv[0].UB = p["start"]
-        else:
-            pat = re.compile(re.escape(name) + r"_placed_at_Worker_(\d+)_on_Time_(\d+)_with_strategy_(.*)$")
-            sids = again["_sids"][ti]
-            hit_any = False
-            for v in f.getVars():
-                mm = pat.match(v.VarName)
-                if not mm:
-                    continue
-                hit = bool(p["placed"]) and int(mm.group(1)) == p["w"] and int(mm.group(2)) == p["start"] and mm.group(3) == sids[p["s"] - 1]
-                v.LB = v.UB = 1 if hit else 0
-                hit_any = hit_any or hit
-            if p["placed"] and not hit_any:
-                return dict(out, witness_in_model="no variable: the (worker, slot, strategy) triple is not offered by the model")
-    f.optimize()
-    if f.Status in (GRB.INFEASIBLE, GRB.INF_OR_UNBD):
+    verdict, info = ModelProbe(rec, m, again["_sids"]).ask(plan, iis=True)
+    if verdict == "feasible":
+        out["witness_in_model"] = f"feasible with objective {info}"
+    elif verdict == "infeasible":
         out["witness_in_model"] = "infeasible: the planner's own constraints exclude the plan"
-        try:
-            f.computeIIS()
-            out["iis"] = [c.ConstrName for c in f.getConstrs() if c.IISConstr][:12] + [
-                g.GenConstrName for g in f.getGenConstrs() if g.IISGenConstr][:12]
-        except gp.GurobiError:
-            pass
-    elif f.SolCount:
-        out["witness_in_model"] = f"feasible with objective {round(f.ObjVal, 4)}"
+        out["iis"] = info
+    elif verdict == "novar":
+        out["witness_in_model"] = "no variable: the placement is not offered by the model"
     else:
-        out["witness_in_model"] = f"status {f.Status}"
+        out["note"] = info
     return out
-
-
 
 
 # ---------------------------------------------------------------------------
@@ -671,6 +699,145 @@ def _skips(tr, n, k):
 
 
 # ---------------------------------------------------------------------------
+# the pinned-model conventions are the planner's: decision spaces compared exhaustively
+
+EQ_CASES = [
+    # progressed occupant + two tasks (ILP: occupant charged its full runtime, pair sums)
+    case("ilp", "tasks", 2, [[2, 0]], [O(1, [1, 0], 2, 3)], [T("g1", 0, 7, [([1, 0], 2)]), T("g2", 1, 6, [([2, 0], 1)])], tag="eq_ilp_occ"),
+    # cross-worker coupling of the pair sums + a hopeless-after-release pattern
+    case("ilp", "tasks", 0, [[1, 0], [1, 0]], [O(2, [1, 0], 3)], [T("g1", 0, 6, [([1, 0], 4)]), T("g2", 0, 3, [([1, 0], 1)])], tag="eq_ilp_cross"),
+    # chain + single, two strategies (ILP: chosen runtime + 1; unplaced child still timed)
+    case("ilp", "graphs", 0, [[2, 0]], [], [T("g1", 0, 4, [([1, 0], 2), ([2, 0], 1)]), T("g1", -1, 5, [([1, 0], 1)], parents=[1]), T("g2", 0, 4, [([1, 0], 3)])], tag="eq_ilp_chain"),
+    # TetriSched-Gurobi: chain (slowest runtime + 1), two workers, progressed occupant, slots now + 2k
+    case("tsg", "graphs", 1, [[2, 0], [1, 1]], [O(1, [1, 0], 2, 3)],
+         [T("g1", 0, 8, [([1, 0], 2), ([2, 0], 1)]), T("g1", -1, 9, [([0, 1], 2)], parents=[1]), T("g2", 1, 6, [([1, 0], 3)])], disc=2, tag="eq_tsg_chain"),
+]
+
+
+def _plan_key(plan):
+    return tuple((p["w"], p["s"], p["start"]) if p["placed"] else None for p in plan)
+
+
+def _options(rec):
+    """per task: unplaced, or any worker x any strategy x any start in now .. deadline
+    (TetriSched: on the slot grid, up to the horizon)"""
+    inst = rec["inst"]
+    step = 1 if rec["policy"] == "ilp" else rec["disc"]
+    last = None if rec["policy"] == "ilp" else tlc_record(rec, 0)["conv"]["horizon"]
+    per = []
+    for t in inst["tasks"]:
+        opts = [{"placed": False, "w": 0, "s": 0, "start": 0}]
+        for w in range(1, len(inst["caps"]) + 1):
+            for s in range(1, len(t["strats"]) + 1):
+                for st in range(inst["now"], min(t["deadline"], last if last is not None else t["deadline"]) + 1, step):
+                    opts.append({"placed": True, "w": w, "s": s, "start": st})
+        per.append(opts)
+    return per
+
+
+def _ncandidates(rec):
+    n = 1
+    for o in _options(rec):
+        n *= len(o)
+    return n
+
+
+def _candidates(rec):
+    """every syntactic plan of a small case"""
+    import itertools
+
+    return itertools.product(*_options(rec))
+
+
+def _pool_plans(rec, model, sids, horizon):
+    """all solutions of the TetriSched-Gurobi model (solution pool), projected to plans"""
+    from gurobipy import GRB
+
+    f = model.copy()
+    f.Params.OutputFlag = 0
+    f.Params.Threads = 2
+    f.setObjective(0)
+    f.Params.PoolSearchMode = 2
+    f.Params.PoolSolutions = 2000000
+    for v in f.getVars():  # the start_time of an unplaced task is free: bound it
+        if v.VType == GRB.INTEGER and v.UB > 1e6:
+            v.UB = horizon
+    f.optimize()
+    probe = ModelProbe(rec, f, sids, copy=False)
+    plans = set()
+    for n in range(f.SolCount):
+        probe.f.Params.SolutionNumber = n
+        plan = []
+        for ti in range(len(rec["inst"]["tasks"])):
+            hit = [k for k, v in probe.place[ti].items() if v.Xn > 0.5]
+            plan.append((hit[0][0], hit[0][1], hit[0][2]) if hit else None)
+        plans.add(tuple(plan))
+    return plans, f.SolCount
+
+
+def eq_prepare(quick, sample=()):
+    """Solve the fixed equality cases (and the sampled records) again, keeping the
+    planners' Gurobi models; returns (records, TLC records of kind enum with dump)."""
+    cases = ([EQ_CASES[0], EQ_CASES[3]] if quick else EQ_CASES) + list(sample)
+    trecs, recs = [], []
+    for i, c in enumerate(cases):
+        rec, m = solve_captured(c)
+        if "skip" in rec or m is None:
+            if c["tag"].startswith("eq_"):
+                raise tlc.TLCMachineryError(f"equality case {c['tag']}: {rec.get('skip', 'no model')}")
+            continue
+        rec["_model"] = m
+        recs.append(rec)
+        flags = tuple(f for f in FLAGS[c["policy"]] if f != "rewardOnly")
+        tr = tlc_record(rec, 10 + i, flags, kind="enum")
+        tr["dump"] = True
+        trecs.append(tr)
+    assert len(trecs) < 90
+    return recs, trecs
+
+
+def eq_compare(res, recs, trecs, finds):
+    """The set of complete plans PlanSpace reaches under the pinned-model conventions
+    must equal the feasible set of the planner's own model: every syntactic plan is
+    fix-checked on the captured Gurobi model (one TetriSched case is also enumerated
+    through the solution pool)."""
+    out = []
+    agg = {"cases": 0, "equal": 0, "syntactic_plans_asked": 0, "feasible_plans": 0, "model_not_asked": 0}
+    for rec, tr in zip(recs, trecs):
+        spec = {_plan_key(p) for c, p in finds.get(tr["id"], []) if c == "plan"}
+        probe = ModelProbe(rec, rec["_model"], rec["_sids"])
+        if probe.note:
+            agg["model_not_asked"] += 1
+            continue
+        model, asked = set(), 0
+        for plan in _candidates(rec):
+            asked += 1
+            if probe.ask(list(plan))[0] == "feasible":
+                model.add(_plan_key(plan))
+        entry = {
+            "case": rec["tag"], "policy": rec["policy"], "mode": rec["mode"], "syntactic_plans_fix_checked": asked,
+            "plans_in_spec": len(spec), "plans_in_model": len(model), "equal": spec == model,
+        }
+        if rec["tag"] == "eq_tsg_chain":
+            pool, nsol = _pool_plans(rec, rec["_model"], rec["_sids"], tr["conv"]["horizon"] + 12)
+            entry["pool_solutions"] = nsol
+            entry["plans_in_pool"] = len(pool)
+            entry["equal"] = entry["equal"] and pool == spec
+        agg["cases"] += 1
+        agg["equal"] += entry["equal"]
+        agg["syntactic_plans_asked"] += asked
+        agg["feasible_plans"] += len(model)
+        if not entry["equal"]:
+            entry["inst"] = rec["inst"]
+            entry["only_in_spec"] = [list(map(str, x)) for x in sorted(spec - model, key=str)[:5]]
+            entry["only_in_model"] = [list(map(str, x)) for x in sorted(model - spec, key=str)[:5]]
+            res.notes.append(f"decision spaces differ on {rec['tag']} ({rec['policy']}/{rec['mode']}): the pinned-model conventions of PlanSpace are not this planner's (attribution of violations is unreliable)")
+        if rec["tag"].startswith("eq_") or not entry["equal"]:
+            out.append(entry)
+    res.extra["decision_space_equality"] = {"summary": agg, "cases": out[:12]}
+
+
+# ---------------------------------------------------------------------------
 # the check
 
 
@@ -701,7 +868,7 @@ def run(tier: str) -> CheckResult:
     r = rng("c14")
     cases = directed()
     per = {"ilp/tasks": 5, "ilp/graphs": 5, "tsg/tasks": 4, "tsg/graphs": 4, "tsc/tasks": 3} if quick else \
-        {"ilp/tasks": 130, "ilp/graphs": 130, "tsg/tasks": 80, "tsg/graphs": 80, "tsc/tasks": 60}
+        {"ilp/tasks": 260, "ilp/graphs": 260, "tsg/tasks": 170, "tsg/graphs": 170, "tsc/tasks": 120}
     for pm, n in per.items():
         pol, mode = pm.split("/")
         cases += generate(pol, mode, n, r, 3 if quick else 4)
@@ -721,29 +888,35 @@ def run(tier: str) -> CheckResult:
     res.extra["skipped"] = {"raised": sum(1 for x in skipped if x.get("raised")), "not_offered_as_expected": sum(1 for x in skipped if not x.get("raised"))}
     res.extra["skipped_samples"] = [{"policy": x["policy"], "mode": x["mode"], "why": x["skip"], "inst": x["inst"]} for x in skipped[:4]]
     res.traces_validated = len(recs)
-    # --- pass 1: the statement-level decision space
+    # --- one TLC pass: every record under the statement-level conventions (id*100) and,
+    # to attribute a failure to its cause, under the conventions of the pinned model
     t0 = time.time()
     erecs = enum_records()
-    finds, stats, runs = check_records(erecs + [tlc_record(rec, rec["id"] * 100) for rec in recs], jvms)
-    _absorb(res, "PlanSpace/records (statement-level conventions)", runs, time.time() - t0)
-    absorb_enum(res, erecs, stats, runs)
-    failing = [rec for rec in recs if any(c in ("better", "addable") for c, _ in finds.get(rec["id"] * 100, []))]
-    outside = [rec for rec in recs if any(c == "answer_outside_space" for c, _ in finds.get(rec["id"] * 100, []))]
-    # --- pass 2: attribute every failing record to a convention of the pinned model
+    pick = [rec for rec in recs if rec["policy"] in ("ilp", "tsg") and rec["tag"] == "gen" and 20 <= _ncandidates(rec) <= 4000]
+    r.shuffle(pick)
+    qrecs, qtrecs = eq_prepare(quick, pick[: (6 if quick else 80)])
+    res.extra["equality_prepare_wall_s"] = round(time.time() - t0, 1)
     variants = []
-    for rec in failing:
+    for rec in recs:
         for k, fl in enumerate(_subsets(FLAGS[rec["policy"]])):
             if "rewardOnly" in fl and rec["mode"] != "graphs":
                 continue
             variants.append((rec, fl, rec["id"] * 100 + k + 1))
     t0 = time.time()
-    vfinds, _, vruns = check_records([tlc_record(rec, vid, fl) for rec, fl, vid in variants], jvms)
-    if vruns:
-        _absorb(res, "PlanSpace/attribution (conventions of the pinned model)", vruns, time.time() - t0)
+    finds, stats, runs = check_records(
+        erecs + qtrecs + [tlc_record(rec, rec["id"] * 100) for rec in recs] + [tlc_record(rec, vid, fl) for rec, fl, vid in variants], jvms
+    )
+    _absorb(res, "PlanSpace/records (statement-level conventions + attribution variants)", runs, time.time() - t0)
+    absorb_enum(res, erecs, stats, runs)
+    t0 = time.time()
+    eq_compare(res, qrecs, qtrecs, finds)
+    res.extra["equality_compare_wall_s"] = round(time.time() - t0, 1)
+    failing = [rec for rec in recs if any(c in ("better", "addable") for c, _ in finds.get(rec["id"] * 100, []))]
+    outside = [rec for rec in recs if any(c == "answer_outside_space" for c, _ in finds.get(rec["id"] * 100, []))
+               and any(a["placed"] and (i + 1) not in rec["info"].get("kept_previous_placement", []) for i, a in enumerate(rec["ans"]))]
     explained = {}
     for rec, fl, vid in variants:
-        still = any(c in ("better", "addable") for c, _ in vfinds.get(vid, []))
-        if not still and rec["id"] not in explained:
+        if rec in failing and rec["id"] not in explained and not any(c in ("better", "addable") for c, _ in finds.get(vid, [])):
             explained[rec["id"]] = fl
     # --- verdicts
     counts = {}
